@@ -32,6 +32,60 @@ def step_sig(run):
     return tuple(out)
 
 
+def delegation_stage(run, pid, scs, id_mon=ID_MON, id_twin=ID_TWIN, id_own=ID_OWN):
+    """Runs delegation scenarios through the real controllers, judges them (C15Corr.judge) and files violations for
+    property [pid]. Returns (number of evaluated scenarios, controller passes, indices, outputs)."""
+    outs = vlib.run_harness("delegation", scs)
+    terms, idx = [], []
+    for i, (sc, o) in enumerate(zip(scs, outs)):
+        if "obs" not in o:
+            run.violation("corr:%s/harness error or panic" % pid, {"correspondence": "harness", "scenario": sc, "out": o}, False)
+            continue
+        try:
+            terms.append(dl.c_tcase(sc, o["obs"]))
+            idx.append(i)
+        except pl.Unrepresentable as e:
+            run.violation("corr:%s/observation outside the model's event language: %s" % (pid, e),
+                          {"correspondence": "C15Corr event language", "scenario": sc, "impl": o["obs"]}, False)
+    res, logs = vlib.judge_cases(pid, IMPORTS, "judge", terms, 5, shard=40, tag="dlg")
+    for l in logs:
+        run.violation("corr:%s/coq-eval" % pid, {"correspondence": "coq evaluation failed", "log": l}, False)
+    bad = [(k, i) for k, (i, r) in enumerate(zip(idx, res)) if r is not None and not all(r)]
+    detail = {}
+    if bad:
+        pres, _ = vlib.judge_cases(pid, IMPORTS, "judge_parts", [terms[k] for k, _ in bad[:40]], len(PARTS), shard=10, tag="parts")
+        for (k, i), pr in zip(bad, pres):
+            if pr is not None:
+                detail[i] = [n for n, v in zip(PARTS, pr) if not v]
+    passes = 0
+    for i, r in zip(idx, res):
+        sc, obs = scs[i], outs[i]["obs"]
+        passes += len(obs["d"]["steps"]) + (len(obs["l"]["steps"]) if obs.get("l") else 0)
+        if r is None:
+            continue
+        nd = sum(1 for s in sc["sets"] for ph in s["phases"] if ph["class"])
+        if nd > 0:
+            run.classes.add((sc["family"], sc["strategy"], step_sig(obs["d"])))
+        agree_d, agree_l, mon, twin, own = r
+        info = {"scenario": sc, "impl": {"d": {k: obs["d"][k] for k in ("steps", "post", "sets", "phases", "quiet")}}, "failed": detail.get(i)}
+        concrete = False
+        if not mon:
+            run.violation(id_mon, info, True)
+            concrete = True
+        if not twin:
+            info2 = dict(info)
+            info2["impl"] = dict(info["impl"], l={k: obs["l"][k] for k in ("steps", "post", "sets", "quiet")})
+            run.violation(id_twin, info2, True)
+            concrete = True
+        if not own:
+            run.violation(id_own, info, True)
+            concrete = True
+        if not concrete and (not agree_d or not agree_l):
+            run.violation("corr:%s/controller models and implementation differ (%s run)" % (pid, "delegated" if not agree_d else "local twin"),
+                          {"correspondence": "C15Corr.agree", **info}, False)
+    return len(idx), passes, idx, outs
+
+
 def check(run, tier, seed, replay=None):
     run.assumptions += [
         "pass-level atomicity: one controller pass at a time against the store (interleavings = orders of whole passes, round-robin and seeded random, "
@@ -55,59 +109,14 @@ def check(run, tier, seed, replay=None):
         scs = [json.load(open(replay))["replay"]["scenario"]]
     else:
         scs = dl.gen(seed, tier)
-    outs = vlib.run_harness("delegation", scs)
-    terms, idx = [], []
-    for i, (sc, o) in enumerate(zip(scs, outs)):
-        if "obs" not in o:
-            run.violation("corr:C15/harness error or panic", {"correspondence": "harness", "scenario": sc, "out": o}, False)
-            continue
-        try:
-            terms.append(dl.c_tcase(sc, o["obs"]))
-            idx.append(i)
-        except pl.Unrepresentable as e:
-            run.violation("corr:C15/observation outside the model's event language: %s" % e,
-                          {"correspondence": "C15Corr event language", "scenario": sc, "impl": o["obs"]}, False)
-    res, logs = vlib.judge_cases("C15", IMPORTS, "judge", terms, 5, shard=40)
-    for l in logs:
-        run.violation("corr:C15/coq-eval", {"correspondence": "coq evaluation failed", "log": l}, False)
-    bad = [(k, i) for k, (i, r) in enumerate(zip(idx, res)) if r is not None and not all(r)]
-    detail = {}
-    if bad:
-        pres, _ = vlib.judge_cases("C15", IMPORTS, "judge_parts", [terms[k] for k, _ in bad[:40]], len(PARTS), shard=10, tag="parts")
-        for (k, i), pr in zip(bad, pres):
-            if pr is not None:
-                detail[i] = [n for n, v in zip(PARTS, pr) if not v]
-    passes = 0
-    for i, r in zip(idx, res):
-        sc, obs = scs[i], outs[i]["obs"]
-        passes += len(obs["d"]["steps"]) + (len(obs["l"]["steps"]) if obs.get("l") else 0)
-        if r is None:
-            continue
-        nd = sum(1 for s in sc["sets"] for ph in s["phases"] if ph["class"])
-        if nd > 0:
-            run.classes.add((sc["family"], sc["strategy"], step_sig(obs["d"])))
-        agree_d, agree_l, mon, twin, own = r
-        info = {"scenario": sc, "impl": {"d": {k: obs["d"][k] for k in ("steps", "post", "sets", "phases", "quiet")}}, "failed": detail.get(i)}
-        concrete = False
-        if not mon:
-            run.violation(ID_MON, info, True)
-            concrete = True
-        if not twin:
-            info2 = dict(info)
-            info2["impl"] = dict(info["impl"], l={k: obs["l"][k] for k in ("steps", "post", "sets", "quiet")})
-            run.violation(ID_TWIN, info2, True)
-            concrete = True
-        if not own:
-            run.violation(ID_OWN, info, True)
-            concrete = True
-        if not concrete and (not agree_d or not agree_l):
-            run.violation("corr:C15/controller models and implementation differ (%s run)" % ("delegated" if not agree_d else "local twin"),
-                          {"correspondence": "C15Corr.agree", **info}, False)
-    run.cov["evaluations"] = len(idx)
+    n, passes, idx, outs = delegation_stage(run, "C15", scs)
+    run.cov["evaluations"] = n
     run.cov["controller_passes"] = passes
     run.cov["rule"] = ("fixed corpus (name clash), every subset of 1-3 phases delegated x both owner strategies x round-robin / seeded random "
                        "schedules to quiescence with lifecycle changes (pause, unpause, archive, delete, orphan delete), handovers between two "
-                       "revisions for every pair of delegation masks, random rollouts / handovers, and single ObjectSets with pre-existing phase "
+                       "revisions for every pair of delegation masks, handovers over three revisions (previous list with a revision without "
+                       "remote phases first) and from phase objects deleted out-of-band and re-created under new uids, random rollouts / "
+                       "handovers, and single ObjectSets with pre-existing phase "
                        "objects in arbitrary states (stale / current status, paused mismatch, deleting, foreign controller, other class, "
                        "terminating namespace) under short explicit schedules; non-trivial = at least one delegated phase; distinct = (family, "
                        "strategy, per-pass (controller, outcome, request kinds) sequence)")
